@@ -97,6 +97,71 @@ def dt_parts(d):
     return delta.days, delta.seconds
 
 
+class _ZeroTz(_dt.tzinfo):
+    """hand-written tzinfo at UTC+0 that is not `timezone.utc`; dst() is None or timedelta(0)"""
+
+    def __init__(self, dst):
+        self._dst = dst
+
+    def utcoffset(self, dt):
+        return _dt.timedelta(0)
+
+    def dst(self, dt):
+        return self._dst
+
+    def tzname(self, dt):
+        return "ZERO"
+
+
+class _SwitchTz(_dt.tzinfo):
+    """hand-written DST-switching zone: UTC+0 from October to March, UTC+1 from April to September (local months)"""
+
+    def utcoffset(self, dt):
+        return _dt.timedelta(hours=1) if 4 <= dt.month <= 9 else _dt.timedelta(0)
+
+    def dst(self, dt):
+        return self.utcoffset(dt)
+
+    def tzname(self, dt):
+        return "SW"
+
+
+def zoneinfo_ok():
+    try:
+        import zoneinfo
+
+        zoneinfo.ZoneInfo("UTC"), zoneinfo.ZoneInfo("Europe/London")
+        return True
+    except Exception:
+        return False
+
+
+def _with_tz(d, tzk, tz):
+    """the UTC instant `d` as a datetime of the requested time-zone flavour (same instant)"""
+    try:
+        if tzk is None:
+            if tz is None:
+                return d.replace(tzinfo=None)  # naive, documented to mean UTC
+            return d.astimezone(_dt.timezone(_dt.timedelta(minutes=tz)))
+        if tzk == "utcx":
+            return d.astimezone(_dt.timezone(_dt.timedelta(0), "X"))
+        if tzk == "zero":
+            return d.replace(tzinfo=_ZeroTz(None))
+        if tzk == "zerodst":
+            return d.replace(tzinfo=_ZeroTz(_dt.timedelta(0)))
+        if tzk == "switch":
+            # generators only use instants in the middle of a month, so the local month decides
+            off = _dt.timedelta(hours=1) if 4 <= d.month <= 9 else _dt.timedelta(0)
+            return (d + off).replace(tzinfo=_SwitchTz())
+        if tzk in ("zi_utc", "zi_london") and zoneinfo_ok():
+            import zoneinfo
+
+            return d.astimezone(zoneinfo.ZoneInfo("UTC" if tzk == "zi_utc" else "Europe/London"))
+    except OverflowError:  # no representation in that zone at the edge of the datetime range
+        pass
+    return d
+
+
 def enc_read(v):
     """value read from a typed attribute / property -> U record"""
     from enum import Enum
@@ -145,13 +210,8 @@ def dec_tv(tv):
     if tg == "td":
         return _dt.timedelta(seconds=tv["n"], microseconds=tv.get("us", 0)), U("td", tv["n"])
     if tg == "dt":
-        tz = tv.get("tz")
-        tzinfo = None if tz is None else _dt.timezone(_dt.timedelta(minutes=tz))
         d = EPOCH + _dt.timedelta(days=tv["n"], seconds=tv["m"], microseconds=tv.get("us", 0))
-        try:
-            d = d.astimezone(tzinfo) if tzinfo is not None else d.replace(tzinfo=None)
-        except OverflowError:  # the last day of year 9999 has no representation east of UTC
-            pass
+        d = _with_tz(d, tv.get("tzk"), tv.get("tz"))
         return d, U("dt", tv["n"], tv["m"])
     if tg == "list":
         return list(tv["xs"]), U("list", xs=tv["xs"])
@@ -577,10 +637,22 @@ def scalar_steps(prop, rng):
         out += [{"op": "sc_assign", "prop": prop, "tv": {"tg": "int", "n": n}} for n in (0, 5, -1, 86400 * 400, rng.randrange(10**6))]
         out += [{"op": "sc_assign", "prop": prop, "tv": {"tg": "td", "n": n, "us": us}} for n, us in ((0, 0), (0, 999999), (59, 999999), (90061, 1), (rng.randrange(10**7), rng.randrange(10**6)))]
     elif cls in ("date", "retry"):
-        for day in DAYS + [rng.randrange(0, 60000) for _ in range(6)]:
+        def dt(day, sec, us=0, tz=None, tzk=None):
+            return {"op": "sc_assign", "prop": prop, "tv": {"tg": "dt", "n": day, "m": sec, "us": us, "tz": tz, "tzk": tzk}}
+
+        for day in DAYS + [rng.randrange(0, 60000) for _ in range(3)]:
             sec = rng.choice([0, 1, 59, 60, 3599, 3600, 43200, 86399, rng.randrange(86400)])
-            out.append({"op": "sc_assign", "prop": prop, "tv": {"tg": "dt", "n": day, "m": sec, "us": rng.choice([0, 1, 500000, 999999]),
-                                                                 "tz": rng.choice([None, 0, 60, -300, 330, 765])}})
+            out.append(dt(day, sec, rng.choice([0, 1, 500000, 999999]), rng.choice([None, 0, 60, -300, 330, 765])))
+        # aware values at offset zero whose tzinfo is not `timezone.utc`; a DST-switching zone in winter (+0) and summer (+1)
+        winter, summer = _dt.date(rng.randrange(1971, 2100), 1, 15).toordinal() - 719163, _dt.date(rng.randrange(1971, 2100), 7, 15).toordinal() - 719163
+        kinds = ["utcx", "zero", "zerodst", "switch"] + (["zi_utc", "zi_london"] if zoneinfo_ok() else [])
+        for tzk in kinds:
+            for day in (winter, summer):
+                out.append(dt(day, rng.randrange(86400), rng.choice([0, 1, 999999]), tzk=tzk))
+        # the edges of the datetime range, with offsets that keep the local value representable
+        out += [dt(-719162, 0, 0, 0), dt(-719162, 18000, 999999, -300), dt(-719162, 1, 1, tzk="zero"), dt(-683003, 0, 5, 60),
+                dt(2932896, 86399, 999999, 0), dt(2932896, 86399 - 19800, 0, 330), dt(2932896, 43200, 1, tzk="zerodst"),
+                dt(2932896, 86399, 0, None)]
         if cls == "retry":
             out += [{"op": "sc_assign", "prop": prop, "tv": {"tg": "int", "n": n}} for n in (0, 120, 86400)]
     elif cls == "etag":
